@@ -263,12 +263,25 @@ def _run_case(ctx, rng, ci, ds, reps=7):
                 ctx.violation("csv-value-run-failed", "%s -m mae -x %s: %s" % (oargv, axis, o3.brief()), case)
         if total == 0:
             ctx.count("empty_selection_checks")
-            o2 = runner.run_cli(paths + cflag + oargv + ["-m", "mae", "-x", axis, "-type", "csv"])
-            if o2.status == "ok":
+            ecmd = rng.choice([["-m", "mae"], ["-m", "obs", "-agg", "sum"], ["-m", "fcst", "-agg", "max"], ["-m", "obs", "-agg", "count"],
+                               ["-m", "rmse", "-agg", "median"], ["-m", "fcst", "-agg", "sum"], ["-m", "bias", "-agg", "min"]])
+            efields = [("obs",)] if ecmd[1] == "obs" else [("fcst",)] if ecmd[1] == "fcst" else fields
+            try:
+                if sum(len(s_[1]) for k_ in range(F) for s_ in refmodel.slices(ds, k_, efields, axis, opts)) > 0:
+                    ecmd = ["-m", "mae"]          # (-m obs / -m fcst keep cases whose other value is missing)
+            except KeyError:
+                ecmd = ["-m", "mae"]
+            o2 = runner.run_cli(paths + cflag + oargv + ecmd + ["-x", axis, "-type", "csv"])
+            if o2.status == "ok" and ecmd[-1] == "count":
+                h2, rows2 = runner.parse_csv(o2.stdout)
+                if any(c.lower() not in ("nan", "0") for r in rows2 for c in r[len(h2) - F:]):
+                    ctx.violation("empty-selection-gives-number", "%s selects no valid case but %s printed a count:\n%s"
+                                  % (oargv, " ".join(ecmd), runner.strip_ansi(o2.stdout)[-300:]), case)
+            elif o2.status == "ok":
                 h2, rows2 = runner.parse_csv(o2.stdout)
                 if any(c.lower() != "nan" for r in rows2 for c in r[len(h2) - F:]):
-                    ctx.violation("empty-selection-gives-number", "%s selects no valid case but -m mae printed a number:\n%s"
-                                  % (oargv, runner.strip_ansi(o2.stdout)[-300:]), case)
+                    ctx.violation("empty-selection-gives-number", "%s selects no valid case but %s printed a number:\n%s"
+                                  % (oargv, " ".join(ecmd), runner.strip_ansi(o2.stdout)[-300:]), case)
             elif o2.status == "crash":
                 ctx.violation("empty-selection-crash|%s@%s" % (o2.exc_type, o2.where), o2.tb, case)
 
